@@ -898,7 +898,9 @@ class Material(DaeObject):
             """ElementTree representation of the surface."""
         else:
             self.xmlnode = E.material(
-                E.instance_effect(url="#%s" % self.effect.id), id=str(self.id), name=str(self.name))
+                E.instance_effect(url="#%s" % self.effect.id), id=str(self.id))
+            if self.name is not None:
+                self.xmlnode.set('name', str(self.name))
 
     @staticmethod
     def load(collada, localscope, node):
@@ -922,7 +924,10 @@ class Material(DaeObject):
     def save(self):
         """Saves the material data back to :attr:`xmlnode`"""
         self.xmlnode.set('id', str(self.id))
-        self.xmlnode.set('name', str(self.name))
+        if self.name is not None:
+            self.xmlnode.set('name', str(self.name))
+        elif 'name' in self.xmlnode.attrib:
+            del self.xmlnode.attrib['name']
         effnode = self.xmlnode.find(tag('instance_effect'))
         effnode.set('url', '#%s' % self.effect.id)
 
